@@ -60,15 +60,33 @@ Proof.
   destruct (w s p) as [[s' n] e]. reflexivity.
 Qed.
 
-Lemma chunked_lift {St} (w : wfn St) : logged (chunked_writer (lift w)) (chunked_writer w) (fun _ _ => []).
+Lemma chunked_lift_f {St} (f : flushfn St) (w : wfn St) :
+  logged (chunked_writer_f (lift_flush f) (lift w)) (chunked_writer_f f w) (fun _ _ => []).
 Proof.
-  intros s l p. unfold chunked_writer. destruct p as [|x p]; [now rewrite app_nil_r|].
+  intros s l p. unfold chunked_writer_f. destruct p as [|x p]; [now rewrite app_nil_r|].
   unfold lift at 1. cbn [fst snd].
   destruct (w s _) as [[s1 n1] e1]. destruct e1; [now rewrite app_nil_r|].
   unfold lift at 1. cbn [fst snd].
   destruct (w s1 (x :: p)) as [[s2 n2] e2]. destruct e2; [now rewrite app_nil_r|].
   destruct (negb (Nat.eqb n2 (length (x :: p)))); [now rewrite app_nil_r|].
-  unfold lift. cbn [fst snd]. destruct (w s2 crlf) as [[s3 n3] e3]. now rewrite app_nil_r.
+  unfold lift. cbn [fst snd]. destruct (w s2 crlf) as [[s3 n3] e3].
+  destruct e3; [now rewrite app_nil_r|].
+  unfold lift_flush. cbn [fst snd]. destruct (f s3) as [s4 e4]. now rewrite app_nil_r.
+Qed.
+
+Lemma lift_noflush {St} : forall st : St * log, lift_flush (@noflush St) st = noflush st.
+Proof. intros [s l]. reflexivity. Qed.
+
+Lemma chunked_lift {St} (w : wfn St) : logged (chunked_writer (lift w)) (chunked_writer w) (fun _ _ => []).
+Proof.
+  intros s l p. pose proof (chunked_lift_f noflush w s l p) as H.
+  unfold chunked_writer. unfold chunked_writer_f in *.
+  destruct p as [|x p]; [exact H|].
+  destruct (lift w (s, l) _) as [[st1 n1] e1]. destruct e1; [exact H|].
+  destruct (lift w st1 (x :: p)) as [[st2 n2] e2]. destruct e2; [exact H|].
+  destruct (negb (Nat.eqb n2 (length (x :: p)))); [exact H|].
+  destruct (lift w st2 crlf) as [[st3 n3] e3]. destruct e3; [exact H|].
+  rewrite lift_noflush in H. exact H.
 Qed.
 
 (* accumulated log of write_all *)
@@ -103,11 +121,12 @@ Proof.
 Qed.
 
 (* ---------- HTTP/1.1 request side ---------- *)
-Lemma h1_send_gen_transparent {St} rule ds (w : wfn St) s q :
+Lemma h1_send_gen_transparent {St} rule crule (flush : flushfn St) ds (w : wfn St) s q :
   (q_expect_continue q = true -> rule ds = true) ->
-  fst (h1_send_gen rule ds w s q) = h1_send_plain w s q.
+  (q_chunked q = true -> crule ds = true) ->
+  fst (h1_send_gen rule crule flush ds w s q) = h1_send_plain_f flush w s q.
 Proof.
-  intro Hrule. unfold h1_send_gen, h1_send_plain.
+  intros Hrule Hc. unfold h1_send_gen, h1_send_plain_f.
   pose proof (logged_wrap ds PReqH HReqHeader (lift w) w _ (logged_lift w)) as LH.
   rewrite (write_all_logged_st _ _ _ _ _ LH). cbn [fst snd].
   destruct (write_all w s (q_header_writes q)) as [s1 e1].
@@ -116,10 +135,12 @@ Proof.
   rewrite Hf. destruct e1; [reflexivity|].
   destruct (q_body q) as [chunks|]; [|reflexivity].
   pose proof (logged_wrap ds PReqB HReqBody (lift w) w _ (logged_lift w)) as LW.
-  pose proof (logged_wrap ds PReqB HReqBody (chunked_writer (lift w)) (chunked_writer w) _ (chunked_lift w)) as LC.
   destruct (q_chunked q).
-  - rewrite (write_all_logged_st _ _ _ _ chunks LC). cbn [fst snd].
-    destruct (write_all (chunked_writer w) s1 chunks) as [s2 e2]. destruct e2; [reflexivity|].
+  - rewrite (Hc eq_refl).
+    pose proof (logged_wrap ds PReqB HReqBody (chunked_writer_f (lift_flush flush) (lift w))
+                  (chunked_writer_f flush w) _ (chunked_lift_f flush w)) as LC.
+    rewrite (write_all_logged_st _ _ _ _ chunks LC). cbn [fst snd].
+    destruct (write_all (chunked_writer_f flush w) s1 chunks) as [s2 e2]. destruct e2; [reflexivity|].
     rewrite (write_all_logged_st _ _ _ _ _ (logged_lift w)). cbn [fst snd].
     destruct (write_all w s2 [bs "0" ++ crlf]) as [s3 e3]. destruct e3; [reflexivity|].
     unfold add_hook. cbn [fst snd].
@@ -131,9 +152,14 @@ Qed.
 
 Lemma h1_send_transparent {St} ds (w : wfn St) s q :
   fst (h1_send ds w s q) = h1_send_plain w s q.
-Proof. apply h1_send_gen_transparent. reflexivity. Qed.
+Proof. apply h1_send_gen_transparent; reflexivity. Qed.
 
-(* the pinned flush rule is not transparent: Expect: 100-continue with a request-header dumper *)
+(* with the connection's Flush made explicit: the chunks of a streamed (chunked) upload are
+   flushed one by one whether or not dumpers are installed - any flush, any writer *)
+Lemma h1_send_f_transparent {St} (flush : flushfn St) ds (w : wfn St) s q :
+  fst (h1_send_f flush ds w s q) = h1_send_plain_f flush w s q.
+Proof. apply h1_send_gen_transparent; reflexivity. Qed.
+
 Definition app_writer : wfn bytes := fun s p => (s ++ p, length p, false).
 Definition opts_all (w : writer) : options :=
   mkOpts (Some w) None None None None None None true true true true false.
